@@ -994,6 +994,9 @@ func run(seed int64, n int, dir string, _ []string) {
 		if done == 0 {
 			// every function × every argument count through SQL text, in-process (gen_arity.go); fatal outcomes are confirmed on the binary
 			jobs = append(jobs, arityGrid(o, seed)...)
+			// FORMAT / PRINTF placeholders and LIMIT / OFFSET / WITH TIES / PERCENT, exhaustive over small ranges, in-process (gen_grid.go)
+			jobs = append(jobs, formatGrid(o)...)
+			jobs = append(jobs, limitGrid(o)...)
 			jobs = append(jobs, corpusJobs()...)
 			jobs = append(jobs, knownFindingJobs()...)
 			if os.Getenv("VERIF_TIER") == "thorough" {
